@@ -84,7 +84,7 @@ func (fs DirFs) Delete(dir, fname string) {
 }
 
 func (fs DirFs) AtomicCreate(dir, fname string, data []byte) {
-	tmpFile := fname + ".tmp"
+	tmpFile := path.Join(dir, fname+".tmp")
 	fd, err := unix.Openat(fs.rootFd, tmpFile,
 		unix.O_CREAT|unix.O_TRUNC|unix.O_WRONLY, 0644)
 	if err != nil {
